@@ -146,6 +146,14 @@ void prop_hybrid(Tape &t, Ctx &c) {
         if (exact) { // identical to the scalar builtin backend on exact data
             ab::numa_vector<double> y2(y0); ab::spmv(alpha.v, *a, xs, beta.v, y2);
             require_same(y2, ys, "builtin_hybrid spmv vs scalar builtin spmv");
+            // the converse mix: SCALAR matrix applied to BLOCK-valued vectors (reinterpreted as scalars)
+            typedef amgcl::static_matrix<double, B, 1> RB;
+            ab::numa_vector<RB> xb(static_cast<size_t>(mb)), yb(static_cast<size_t>(nb));
+            for (ptrdiff_t i = 0; i < mb; ++i) for (int p = 0; p < B; ++p) xb[i](p) = xh[i * B + p];
+            for (ptrdiff_t i = 0; i < nb; ++i) for (int p = 0; p < B; ++p) yb[i](p) = y0[i * B + p];
+            ab::spmv(alpha.v, *a, xb, beta.v, yb);
+            require_same(yb, ys, "scalar matrix with block-valued vectors vs scalar vectors");
+            c.label("scalar-matrix-block-vectors");
         }
     } else {
         std::vector<double> fh = gen_vec<double>(t, n, exact, 5), r0(n); poison_vec(t, r0);
